@@ -93,7 +93,7 @@ def gen_presentation(rng, sc, identity=False):
     if identity:
         return {"colmap": NAME_POOLS[0], "uid": "ident", "uid_name": "unique_id", "row_seed": None, "table_order": list(range(len(sc["tables"]))),
                 "rule_order": list(range(n)), "salting": {}, "mat_tf": True, "mat_bp": True, "debug": [], "threads": None, "col_order_seed": None,
-                "one_table": False, "block_on": True}
+                "one_table": False, "block_on": True, "alias_map": "ident"}
     order = list(range(n))
     rng.shuffle(order)
     torder = list(range(len(sc["tables"])))
@@ -112,6 +112,9 @@ def gen_presentation(rng, sc, identity=False):
         "col_order_seed": rng.choice([None, rng.randint(0, 10**6)]),
         "one_table": len(sc["tables"]) > 1 and sc["link_type"] == "link_only" and rng.random() < 0.3,
         "block_on": rng.random() < 0.5,
+        # the input tables' aliases (= source dataset names) may be renamed, also so that their
+        # order - which decides the left/right orientation of every cross-table pair - reverses
+        "alias_map": rng.choice(["ident", "ident", "reversing", "capitalised"]) if len(sc["tables"]) > 1 else "ident",
     }
 
 
@@ -123,6 +126,14 @@ def uid_map(kind, i):
     if kind == "reverse":  # order-reversing: every pair is evaluated in the other orientation
         return 1000 - i
     return i
+
+
+def alias_of(kind, names, ti):
+    if kind == "reversing":
+        return f"z{len(names) - ti}_{names[ti]}"
+    if kind == "capitalised":
+        return names[ti].capitalize() + "_Data"
+    return names[ti]
 
 
 def run_pipeline(sc, p):
@@ -143,7 +154,7 @@ def run_pipeline(sc, p):
         recs = []
         for r in rows:
             u = uid_map(p["uid"], r["unique_id"])
-            back[(sc["names"][ti], str(u))] = (sc["names"][ti], r["unique_id"])
+            back[(alias_of(p.get("alias_map", "ident"), sc["names"], ti), str(u))] = (sc["names"][ti], r["unique_id"])
             recs.append({uidn: u, **{cm[c]: r[c] for c in COLS}})
         d = pd.DataFrame(recs)
         for c in COLS:
@@ -153,7 +164,7 @@ def run_pipeline(sc, p):
             random.Random(p["col_order_seed"] + 7 * ti).shuffle(cols)
             d = d[cols]
         dfs.append(d)
-    aliases = [sc["names"][ti] for ti in p["table_order"]]
+    aliases = [alias_of(p.get("alias_map", "ident"), sc["names"], ti) for ti in p["table_order"]]
     if p["one_table"]:
         dfs = [pd.concat([d.assign(source_dataset=a) for d, a in zip(dfs, aliases)], ignore_index=True)]
         aliases = None
@@ -218,7 +229,7 @@ def run_pipeline(sc, p):
         lk._debug_mode = False
         model = lk.misc.save_model_to_json()
     su.quiet()
-    first = sc["names"][0]
+    first = alias_of(p.get("alias_map", "ident"), sc["names"], 0)
     pairs = {}
     for x in prs:
         a = back[(x.get("source_dataset_l", first), str(x[uidn + "_l"]))]
